@@ -1,12 +1,13 @@
 // C04: a merged search over several shards (StorageEngine.Search) or several nodes (the merge /
 // cursor recomputation of Server.ProcessSearch) behaves like one search over the union of the objects.
 //
-// Exhaustive enumeration (no sampling): every distribution of a six-object corpus over 2 shards
-// (each object on a non-empty subset of the shards; thorough: five objects over 3 shards) × every
-// visiting/arrival order of the shards × every query of queries.go (every primary attribute class ×
-// matchers, with and without requested attributes) × every page size 1..N+1, paged to exhaustion
-// with the cursors the implementation returns. Differential oracle: the page sequence of the same
-// request on a one-shard engine that holds the union.
+// Exhaustive enumeration (no sampling): every distribution of a five-object corpus over 2 shards
+// (each object on a non-empty subset of the shards; thorough: all six objects over 2 shards and four
+// objects over 3 shards; two corpora) × every visiting/arrival order of the shards × every query of
+// queries.go (every primary attribute class × matchers, with and without requested attributes) ×
+// every page size 1..N+1, paged to exhaustion with the cursors the implementation returns.
+// Differential oracle: the page sequence of the same request on a one-shard engine that holds the
+// union.
 package main
 
 import (
